@@ -59,13 +59,13 @@ func (r *rb) take(n int) []byte {
 	r.b = r.b[n:]
 	return p
 }
-func (r *rb) u8() uint8     { return r.take(1)[0] }
-func (r *rb) u16() uint16   { return binary.LittleEndian.Uint16(r.take(2)) }
-func (r *rb) u32() uint32   { return binary.LittleEndian.Uint32(r.take(4)) }
-func (r *rb) i32() int32    { return int32(r.u32()) }
-func (r *rb) u64() uint64   { return binary.LittleEndian.Uint64(r.take(8)) }
-func (r *rb) str() string   { return string(r.take(int(r.u16()))) }
-func (r *rb) blob() []byte  { return append([]byte(nil), r.take(int(r.u32()))...) }
+func (r *rb) u8() uint8          { return r.take(1)[0] }
+func (r *rb) u16() uint16        { return binary.LittleEndian.Uint16(r.take(2)) }
+func (r *rb) u32() uint32        { return binary.LittleEndian.Uint32(r.take(4)) }
+func (r *rb) i32() int32         { return int32(r.u32()) }
+func (r *rb) u64() uint64        { return binary.LittleEndian.Uint64(r.take(8)) }
+func (r *rb) str() string        { return string(r.take(int(r.u16()))) }
+func (r *rb) blob() []byte       { return append([]byte(nil), r.take(int(r.u32()))...) }
 func (r *rb) bytes(n int) []byte { return append([]byte(nil), r.take(n)...) }
 
 type mapSize struct{ key, val int }
